@@ -227,6 +227,16 @@ static void suite_hmac(Rng &rng) {
       if (ok2) emitA("cmp", "C08", "tag with one flipped bit accepted h=" + S(h) + " bit=" + S(bit) + " key=" + hex(key) + " msg=" + hex(msg));
       if (bit % 37 == 0) emitM("cmp", "cmp " + S(h) + " " + S(HB) + " " + hex(key) + " " + hex(file) + " " + S((long)pos) + " " + hex(st2, 64), ok2 ? "1" : "0");
     }
+    // two flips that cancel under xor- or sum-accumulating comparisons (bit 7 of two different tag bytes): must be rejected
+    for (int rep = 0; rep < 6; rep++) {
+      int i = rng.below(hlen), j = rng.below(hlen); if (i == j) j = (i + 1) % hlen;
+      unsigned char st4[64]; memcpy(st4, stored, 64); st4[i] ^= 0x80; st4[j] ^= 0x80;
+      bool ok4 = cmp(st4);
+      if (ok4) emitA("cmp", "C08", "tag with two flipped bits (bytes " + S(i) + "," + S(j) + ") accepted h=" + S(h) + " key=" + hex(key) + " msg=" + hex(msg));
+      if (rep == 0) emitM("cmp", "cmp " + S(h) + " " + S(HB) + " " + hex(key) + " " + hex(file) + " " + S((long)pos) + " " + hex(st4, 64), ok4 ? "1" : "0");
+      unsigned char st5[64]; memcpy(st5, stored, 64); st5[i] = (unsigned char)(st5[i] + 1 + rep); st5[j] = (unsigned char)(st5[j] - 1 - rep);
+      if (memcmp(st5, stored, hlen) != 0 && cmp(st5)) emitA("cmp", "C08", "tag with two compensating byte changes accepted h=" + S(h) + " key=" + hex(key) + " msg=" + hex(msg));
+    }
     // bytes after the tag do not matter
     { unsigned char st3[64]; memcpy(st3, stored, 64); for (int i = hlen; i < 64; i++) st3[i] = (unsigned char)rng.next(); if (!cmp(st3)) emitA("cmp", "C08", "bytes beyond the tag influence the comparison h=" + S(h)); }
   }
